@@ -188,12 +188,29 @@ func (e *Env) fieldHeap(owner types.Type, i int) (string, Sort) {
 	if f.Name() == "_" {
 		name = fmt.Sprintf("%s%d", name, i)
 	}
+	e.noteHeapType(name, f.Type(), false)
 	return name, ArraySort(SInt, e.SortOf(f.Type()))
 }
 
 // cellHeap returns the heap for cells of a non-struct type t.
 func (e *Env) cellHeap(t types.Type) (string, Sort) {
+	e.noteHeapType("H_"+sanitize(typeKey(t)), t, false)
 	return "H_" + sanitize(typeKey(t)), ArraySort(SInt, e.SortOf(t))
+}
+
+// noteHeapType remembers the Go type of the values a heap holds.
+func (e *Env) noteHeapType(name string, t types.Type, isMap bool) {
+	if e.heapTypes == nil {
+		e.heapTypes = map[string]heapType{}
+	}
+	if _, ok := e.heapTypes[name]; !ok {
+		e.heapTypes[name] = heapType{t, isMap}
+	}
+}
+
+type heapType struct {
+	t     types.Type
+	isMap bool
 }
 
 // mapHeaps returns the domain and value heaps for a map type.
@@ -204,6 +221,7 @@ func (e *Env) mapHeaps(t types.Type) (dom, val string, ds, vs Sort) {
 	if e.mapInfo == nil {
 		e.mapInfo = map[string]mapInfo{}
 	}
+	e.noteHeapType("Mv_"+k, m.Elem(), true)
 	if _, ok := e.mapInfo["Mv_"+k]; !ok {
 		e.mapInfo["Mv_"+k] = mapInfo{dom: "Md_" + k, ds: ArraySort(SInt, ArraySort(ks, SBool)), ks: ks, zero: e.Zero(m.Elem())}
 	}
